@@ -346,11 +346,13 @@ def pmap(fn: Callable, items: Sequence, procs: int = NCPU, chunk: int = 1) -> Li
                                  f'items did not finish within {PMAP_TIMEOUT} s')
 
 
-def run_optimized(module: str, func: str, jobs: Sequence, flags: Sequence[str] = ('-O',)) -> List:
+def run_optimized(module: str, func: str, jobs: Sequence, flags: Sequence[str] = ('-O',),
+                  env: Optional[Dict[str, str]] = None) -> List:
     """Runs harness function `module.func` on every job in a separate
     interpreter started with `flags` (-O: assert statements are stripped, as
-    in a deployment with PYTHONOPTIMIZE) and returns the results: the library
-    must mean the same there."""
+    in a deployment with PYTHONOPTIMIZE) and environment `env` (PYTHONHASHSEED:
+    sets of cards and seats are iterated in another order) and returns the
+    results: the library must mean the same there."""
     import pickle
     import subprocess
     inp, outp = tlc.fresh('optin'), tlc.fresh('optout')
@@ -361,7 +363,7 @@ def run_optimized(module: str, func: str, jobs: Sequence, flags: Sequence[str] =
             f'm = importlib.import_module({module!r}); f = getattr(m, {func!r})\n'
             f'jobs = pickle.load(open({str(inp)!r}, "rb"))\n'
             f'pickle.dump([f(j) for j in jobs], open({str(outp)!r}, "wb"))\n')
-    p = subprocess.run([sys.executable, *flags, '-c', code], env=dict(os.environ),
+    p = subprocess.run([sys.executable, *flags, '-c', code], env=dict(os.environ, **(env or {})),
                        stdout=subprocess.PIPE, stderr=subprocess.STDOUT, text=True, timeout=1800)
     try:
         if p.returncode != 0 or not outp.exists():
